@@ -381,8 +381,38 @@ def gen(rng):
     return E.number(sc)
 
 
+def stop_dispatch_probes(rng, n):
+    """Implementation-only probes: a subscriber writes to the monitored signal WHILE a RunStop document is being
+    dispatched (scenario key `doc_triggers`).  The run is over at that moment: no monitor event may follow."""
+    from engine_common import M, number, seq
+
+    out = []
+    for i in range(n):
+        key = rng.choice([None, "a"])
+        body = [M("open_run", run=key), M("monitor", "s1", run=key, name="s1_monitor"), M("checkpoint")]
+        body += [M("null")] * rng.randrange(0, 3)
+        if rng.random() < 0.3:
+            body += [M("unmonitor", "s1", run=key)]
+        if rng.random() < 0.8:
+            body += [M("close_run", run=key)]       # else: the engine's cleanup closes the run
+        sc = {"record_interruptions": False, "devices": {"s1": {"kind": "sig"}}, "plan": seq(*body), "script": {}, "decisions": [],
+              "max_arrivals": 100, "doc_triggers": {"stop": [{"a": "monitor", "sig": "s1", "v": 7000 + i}]}}
+        out.append(number(sc))
+    return out
+
+
 def run(ctx, model=True):
     res = E.run_property(ctx, "C41", oracle, gen=gen, quick=120, thorough=3000, model=model)
+    for sc in stop_dispatch_probes(ctx.rng, ctx.budget(12, 150)):
+        o = E.run_scenario(sc)
+        res.seen(sc, True)
+        res.count("impl-only-probe:update-while-RunStop-is-dispatched")
+        stops = [i for i, d in enumerate(o["docs"]) if d["k"] == "stop"]
+        late = [d for i, d in enumerate(o["docs"]) if d["k"] == "event" and stops and i > stops[0]]
+        if late:
+            res.violations.append(C.Violation("monitor-event-after-RunStop:update-during-stop-dispatch", f"implementation-only probe: a signal update fired while the RunStop was being dispatched produced {late[0]} after the RunStop", sc))
+        if o["subs_left"].get("s1", 0) != 0:
+            res.violations.append(C.Violation("subscription-left-on-device:after-stop-dispatch-probe", f"implementation-only probe: {o['subs_left']} engine subscription(s) left on s1", sc))
     res.rule += " | C41 generator: monitor / unmonitor of s1 placed anywhere in 1-2 (keyed) runs, run end with and without unmonitor, follow-up run, signal updates with unique values at 30-100% of all arrivals (and at the moment the state becomes 'paused', implementation only), 0-3 pause / suspend(+release) / abort / stop / halt requests; 30% of the scenarios contain suspension requests; 15% generic engine scenarios. Updates cannot land while paused through the shared script (arrivals only): those are delivered from the state hook"
     return res
 
@@ -392,4 +422,13 @@ def run_impl_only(ctx):
 
 
 def replay(ctx, data):
+    sc = data.get("case") or {}
+    if sc.get("doc_triggers"):
+        res = C.Result()
+        o = E.run_scenario(sc)
+        stops = [i for i, d in enumerate(o["docs"]) if d["k"] == "stop"]
+        late = [d for i, d in enumerate(o["docs"]) if d["k"] == "event" and stops and i > stops[0]]
+        if late:
+            res.violations.append(C.Violation("monitor-event-after-RunStop:update-during-stop-dispatch", f"{late[0]} after the RunStop", sc))
+        return res
     return E.replay_property(ctx, data, oracle)
